@@ -214,7 +214,15 @@ pub struct Built {
     pub template: TemplateProgram,
     pub compiled: CompiledProgram,
     pub cmr: Cmr,
+    /// arguments / debug flag of `compiled` (None: no fresh instance can be made)
+    pub fresh: Option<(Arguments, bool)>,
+    /// number of runs that were also replayed on a fresh instance whose `commit()` was never called
+    pub fresh_runs: std::sync::atomic::AtomicUsize,
 }
+
+/// How many runs per built program are repeated on a fresh `instantiate` result that is satisfied before
+/// anything called `commit()` on it (the order used by `SatisfiedProgram::new` and simc).
+pub const FRESH_RUNS_PER_PROGRAM: usize = 1;
 
 /// new -> instantiate -> commit().cmr()
 pub fn build(text: &str, args: Arguments, debug: bool) -> Result<Built, CompileOutcome> {
@@ -223,6 +231,7 @@ pub fn build(text: &str, args: Arguments, debug: bool) -> Result<Built, CompileO
         Ok(Err(e)) => return Err(CompileOutcome::Rejected(e)),
         Err(p) => return Err(CompileOutcome::Panic(format!("new: {p}"))),
     };
+    let fresh = Some((args.clone(), debug));
     let compiled = match guard(|| template.instantiate(args, debug)) {
         Ok(Ok(c)) => c,
         Ok(Err(e)) => return Err(CompileOutcome::InstantiateErr(e)),
@@ -232,11 +241,18 @@ pub fn build(text: &str, args: Arguments, debug: bool) -> Result<Built, CompileO
         Ok(c) => c,
         Err(p) => return Err(CompileOutcome::Panic(format!("commit: {p}"))),
     };
-    Ok(Built { template, compiled, cmr })
+    Ok(Built { template, compiled, cmr, fresh, fresh_runs: Default::default() })
+}
+
+struct OnRef<'a> {
+    compiled: &'a CompiledProgram,
+    cmr: Cmr,
 }
 
 #[derive(Debug, Clone, PartialEq, Eq)]
 pub enum RunOutcome {
+    /// the outcome depends on whether `commit()` was called on the instance before `satisfy`
+    OrderDependent(String),
     SatisfyErr(String),
     SatisfyPanic(String),
     CmrMismatch,
@@ -253,6 +269,7 @@ pub enum RunOutcome {
 impl RunOutcome {
     pub fn class(&self) -> &'static str {
         match self {
+            RunOutcome::OrderDependent(_) => "satisfy-before-commit-differs",
             RunOutcome::SatisfyErr(_) => "satisfy-err",
             RunOutcome::SatisfyPanic(_) => "satisfy-panic",
             RunOutcome::CmrMismatch => "cmr-mismatch",
@@ -315,6 +332,25 @@ pub fn exec_node(node: &RedeemNode<Elements>, env: &Env) -> RunOutcome {
 
 /// satisfy -> redeem CMR check -> encode -> decode -> exec under `env`.
 pub fn run(built: &Built, witness: WitnessValues, env: &Env) -> RunOutcome {
+    let committed = run_on(&built.compiled, built.cmr, witness.clone(), env);
+    if let Some((args, debug)) = &built.fresh {
+        if built.fresh_runs.fetch_add(1, std::sync::atomic::Ordering::Relaxed) < FRESH_RUNS_PER_PROGRAM {
+            let fresh = match guard(|| built.template.instantiate(args.clone(), *debug)) {
+                Ok(Ok(c)) => run_on(&c, built.cmr, witness, env),
+                Ok(Err(e)) => RunOutcome::SatisfyErr(format!("second instantiate failed: {e}")),
+                Err(p) => RunOutcome::SatisfyPanic(format!("second instantiate: {p}")),
+            };
+            if fresh.class() != committed.class() {
+                return RunOutcome::OrderDependent(format!("satisfy before any commit(): {fresh:?}; satisfy after commit(): {committed:?}"));
+            }
+        }
+    }
+    committed
+}
+
+/// satisfy -> CMR comparison -> witness typing -> encode -> decode -> execute, on one compiled instance
+pub fn run_on(compiled: &CompiledProgram, cmr: Cmr, witness: WitnessValues, env: &Env) -> RunOutcome {
+    let built = OnRef { compiled, cmr };
     let sat = match guard(|| built.compiled.satisfy(witness)) {
         Ok(Ok(s)) => s,
         Ok(Err(e)) => return RunOutcome::SatisfyErr(e),
